@@ -86,3 +86,116 @@ func longBlocks(b Bounds) []*Block {
 	}
 	return out
 }
+
+// ---- family mix: one argument is constant text around a group reference --------
+//
+// The optimiser probes a stage with a context whose every look-up is empty. An
+// argument that is a whole constant or a whole group is either fully known or
+// fully empty to that probe; an argument like "2024-01-02T{0}" shows it a
+// proper *part* of the run-time value (a shorter date, a number with fewer
+// digits, an unterminated JSON document, half a delimiter). Anything a stage
+// learns from what it is shown while being probed (a cached format, a
+// pre-parsed number) must not leak into evaluation.
+
+// mixValues: per-position extras of the function plus values whose parts are
+// themselves meaningful.
+var mixBase = []string{"1337", "-12.50", "2020-03-01T10:00:00Z", "2020-03-01 10:00:00", "01/02/2006", "a,b,,c", "a b", "x", "65536", "1h30m", `{"a":[1,2],"b":"x"}`, "/a/b.txt", "%s|%5d|%v", "a\x00b\x00c", "0x10", "1e3", MaxInt}
+
+func mixSplits(v string) [][2]string {
+	n := len(v)
+	var out [][2]string
+	seen := map[int]bool{}
+	for _, k := range []int{1, n / 2, n - 1, 11} {
+		if k <= 0 || k >= n || seen[k] {
+			continue
+		}
+		seen[k] = true
+		out = append(out, [2]string{v[:k], v[k:]})
+	}
+	return out
+}
+
+func mixBlocks(b Bounds) []*Block {
+	var out []*Block
+	maxArity := 2
+	others := []argChoice{{"", false}, {"2", false}, {"x", true}}
+	if b.Tier == "thorough" {
+		maxArity = 3
+		others = []argChoice{{"", false}, {"2", false}, {"x", false}, {"-1", true}, {"x", true}, {"", true}}
+	}
+	for _, fn := range Functions() {
+		fn := fn
+		out = append(out, &Block{ID: "mix/" + fn, Each: func(yield func(*Prog) bool) bool {
+			for arity := 1; arity <= maxArity; arity++ {
+				if arity == 3 && ArityRejected(fn, arity) {
+					continue
+				}
+				for pos := 0; pos < arity; pos++ {
+					vals := posPool(fn, pos, mixBase)
+					// other positions: their extras as constants, plus the small pool
+					pools := make([][]argChoice, 0, arity-1)
+					for o := 0; o < arity; o++ {
+						if o == pos {
+							continue
+						}
+						pool := append([]argChoice{}, others...)
+						for _, x := range Extras[fn][o] {
+							pool = append(pool, argChoice{x, false})
+						}
+						pools = append(pools, pool)
+					}
+					for _, v := range vals {
+						for _, sp := range mixSplits(v) {
+							// the group holds the tail, or the head
+							for _, tailInGroup := range []bool{true, false} {
+								ok := product(pools, nil, func(rest []argChoice) bool {
+									args := make([]*Node, arity)
+									groups := make([]string, arity)
+									argVals := make([]string, arity)
+									ri := 0
+									for i := 0; i < arity; i++ {
+										if i == pos {
+											if tailInGroup {
+												args[i] = M(sp[0], i, "")
+												groups[i] = sp[1]
+											} else {
+												args[i] = M("", i, sp[1])
+												groups[i] = sp[0]
+											}
+											argVals[i] = v
+											continue
+										}
+										c := rest[ri]
+										ri++
+										argVals[i] = c.val
+										if c.group {
+											args[i] = R(i)
+											groups[i] = c.val
+										} else {
+											args[i] = L(c.val)
+										}
+									}
+									if ExcludedByDesign(fn, argVals) != "" {
+										return true
+									}
+									if fn == "@for" || fn == "@range" || fn == "repeat" || fn == "bar" {
+										// counts and loop bounds assembled from parts: the part the
+										// group holds decides the size; exprcrash's d1 family owns these
+										return true
+									}
+									p := &Prog{Family: "mix", Fn: fn, Arity: arity, Template: C(fn, args...).Print(0), Groups: groups, Dynamic: true, TimeDep: fn == "time"}
+									return yield(p)
+								})
+								if !ok {
+									return false
+								}
+							}
+						}
+					}
+				}
+			}
+			return true
+		}})
+	}
+	return out
+}
